@@ -21,19 +21,31 @@ fn count(kinds: &[u8], k: u8) -> usize {
 /// Reachability witnesses shared by the family harnesses.  Each is trivially true in cells where the
 /// pattern cannot exist (e.g. no e.p. capture without two pawns), so the driver can simply require every
 /// cover of every harness to be SATISFIED.
+/// Can the side to move own a rook in this cell?  (optional cells: any colour; exact cells: colours
+/// alternate white/black in list order)
+fn mover_can_have_rook(kinds: &[u8], turn: u8, optional: bool) -> bool {
+    let mut i = 0;
+    while i < kinds.len() {
+        if kinds[i] == R && (optional || (i % 2) as u8 == turn) { return true; }
+        i += 1;
+    }
+    false
+}
+
 macro_rules! family_covers {
-    ($kinds:expr, $pos:expr, $q:expr, $present:expr) => {{
+    ($kinds:expr, $pos:expr, $q:expr, $present:expr, $opt:expr) => {{
         let kinds: &[u8] = $kinds;
         let pos: &Pos = $pos;
         let q: Key = $q;
         let present: bool = $present;
+        let optional: bool = $opt;
         let np = count(kinds, P);
         cov!(present, "query is an emitted/pseudo-legal move");
         cov!(kinds.len() < 1 || (present && pos.sq[q.1 as usize] != EMPTY), "query captures a piece");
         cov!(np < 1 || (present && q.2 != 0), "query is a promotion");
         cov!(np < 2 || (present && is_ep_capture(pos, q.0, q.1)), "query is an en-passant capture");
         cov!(np < 1 || (present && kind(pos.sq[q.0 as usize]) == P && (q.0 as i32 - q.1 as i32).abs() == 16), "query is a double pawn push");
-        cov!(!contains(kinds, R) || (present && is_castle(pos, q.0, q.1)), "query is a castling move");
+        cov!(!mover_can_have_rook(kinds, pos.turn, optional) || (present && is_castle(pos, q.0, q.1)), "query is a castling move");
         cov!(pos.half >= 128, "half-move clock >= 128");
     }};
 }
@@ -46,7 +58,7 @@ pub fn c01_gen(kinds: &[u8], turn: u8, optional: bool) {
     let q = any_key();
     let (m, _) = observe(&bb, q, false);
     let pl = pseudo_legal(&pos, q.0, q.1, q.2);
-    family_covers!(kinds, &pos, q, pl);
+    family_covers!(kinds, &pos, q, pl, optional);
     cov!(!pl && pos.sq[q.0 as usize] != EMPTY && color(pos.sq[q.0 as usize]) == turn, "query from an own piece that is not pseudo-legal");
     assert!(m <= 1, "C01.1 generator emitted a move twice");
     assert!(m == 0 || pl, "C01.2 generator emitted a move the rules do not allow");
@@ -59,7 +71,7 @@ pub fn c01_legal(kinds: &[u8], turn: u8, optional: bool) {
     let (pos, mut bb, q, mv) = observed(kinds, turn, optional);
     sym::assume(pseudo_legal(&pos, q.0, q.1, q.2));
     let ref_legal = leaves_king_safe(&pos, q.0, q.1, q.2);
-    family_covers!(kinds, &pos, q, true);
+    family_covers!(kinds, &pos, q, true, optional);
     cov!(!ref_legal, "pseudo-legal move that leaves the own king attacked");
     cov!(ref_legal, "legal move");
     cov!(kinds.len() < 1 || (in_check(&pos, turn) && ref_legal), "legal move out of check");
@@ -100,7 +112,7 @@ pub fn c01_gen_after(kinds: &[u8], turn: u8, optional: bool) {
     let pl2 = pseudo_legal(&n, q2.0, q2.1, q2.2);
     cov!(pl2, "second query is pseudo-legal in the successor");
     cov!(count(kinds, P) < 2 || (pl2 && is_ep_capture(&n, q2.0, q2.1)), "second query is an en-passant capture made possible by the first move");
-    cov!(!contains(kinds, R) || (pl2 && is_castle(&n, q2.0, q2.1)), "second query is a castling move");
+    cov!(!mover_can_have_rook(kinds, n.turn, optional) || (pl2 && is_castle(&n, q2.0, q2.1)), "second query is a castling move");
     assert!(m2 <= 1, "C01 generator emitted a move twice in a position reached by make");
     assert!(m2 == 0 || pl2, "C01 generator emitted a move the rules do not allow in a position reached by make");
     assert!(!pl2 || m2 >= 1, "C01 generator misses a move the rules allow in a position reached by make");
@@ -114,7 +126,7 @@ pub fn c01_gen_after(kinds: &[u8], turn: u8, optional: bool) {
 /// would let the generator emit a castling or e.p. move the rules do not allow one move later.
 pub fn c01_inv(kinds: &[u8], turn: u8, optional: bool) {
     let (pos, mut bb, q, mv) = observed(kinds, turn, optional);
-    family_covers!(kinds, &pos, q, true);
+    family_covers!(kinds, &pos, q, true, optional);
     bb.make(mv);
     #[cfg(not(kani))]
     sym::note("after_make", crate::native_util::describe(&bb));
@@ -149,7 +161,7 @@ pub fn c01_inv(kinds: &[u8], turn: u8, optional: bool) {
 pub fn c02_make(kinds: &[u8], turn: u8, optional: bool) {
     let (pos, mut bb, q, mv) = observed(kinds, turn, optional);
     sym::assume(legal(&pos, q.0, q.1, q.2));
-    family_covers!(kinds, &pos, q, true);
+    family_covers!(kinds, &pos, q, true, optional);
     cov!(!contains(kinds, R) || ((pos.wk || pos.wq || pos.bk || pos.bq) && (q.1 == 0 || q.1 == 7 || q.1 == 56 || q.1 == 63) && pos.sq[q.1 as usize] != EMPTY), "capture on a rook home square while rights exist");
     bb.make(mv);
     let n = apply(&pos, q.0, q.1, q.2);
@@ -172,7 +184,7 @@ pub fn c02_make(kinds: &[u8], turn: u8, optional: bool) {
 /// C03: make; unmake is the identity, for every move the generator can emit (legal or not).
 pub fn c03_undo(kinds: &[u8], turn: u8, optional: bool) {
     let (pos, mut bb, q, mv) = observed(kinds, turn, optional);
-    family_covers!(kinds, &pos, q, true);
+    family_covers!(kinds, &pos, q, true, optional);
     let s0 = snap(&bb);
     let z0 = bb.calculate_zobrist_hash();
     let zp0 = bb.calculate_zobrist_pawn_hash();
@@ -223,7 +235,7 @@ pub fn c03_line2(kinds: &[u8], turn: u8, optional: bool) {
 pub fn c05_valid(kinds: &[u8], turn: u8, optional: bool) {
     let (pos, mut bb, q, mv) = observed(kinds, turn, optional);
     sym::assume(pseudo_legal(&pos, q.0, q.1, q.2));
-    family_covers!(kinds, &pos, q, true);
+    family_covers!(kinds, &pos, q, true, optional);
     let n = apply(&pos, q.0, q.1, q.2);
     let mover_attacked = in_check(&n, turn);
     let opponent_attacked = in_check(&n, 1 - turn);
@@ -248,7 +260,7 @@ pub fn c06_incr(kinds: &[u8], turn: u8, optional: bool) {
     let _ = t;
     let (pos, mut bb, q, mv) = observed(kinds, turn, optional);
     sym::assume(legal(&pos, q.0, q.1, q.2));
-    family_covers!(kinds, &pos, q, true);
+    family_covers!(kinds, &pos, q, true, optional);
     let z0 = bb.calculate_zobrist_hash();
     let zp0 = bb.calculate_zobrist_pawn_hash();
     bb.make(mv);
